@@ -17,12 +17,16 @@
     / `C19_same_as_uninterrupted` tie this to `runSched` with no interruption.
   * `treeIters cfg p jk`: the directory holding exactly the completed steps `p` plus the junk `jk` (nothing, an empty
     iteration directory, or the next step's plate directory without the completion marker).
-  * `MarkerLast cfg`: every workflow the mode uses publishes `screen_metadata.json` last.  Read off the .nf files this
-    holds for `retrospective` and `next_plate` (EXTRACT_SCREEN_METADATA consumes the advanced screen) and FAILS for
-    `prospective/main.nf` (EXTRACT_SCREEN_METADATA(ch_input...)): known finding `C19:prospective-marker-first`.
+  * `MarkerLast cfg`: every workflow the mode uses publishes `screen_metadata.json` last (`pubs` = the pipeline run up
+    to the marker).  Read off the .nf files this holds for `retrospective` and `next_plate` (EXTRACT_SCREEN_METADATA
+    consumes the advanced screen) for every file a glob of the script can match -- the model-evaluation outputs of
+    RUN_RETROSPECTIVE_STEP are not upstream of the marker, may follow it, are invisible to the script and are not
+    modelled (validated by the harness) -- and FAILS for `prospective/main.nf` (EXTRACT_SCREEN_METADATA(ch_input...)):
+    known finding `C19:prospective-marker-first`.
 -/
 import Batchie.Lemmas.OrchRun
 import Batchie.Lemmas.OrchGenerated
+import Batchie.Lemmas.OrchFake
 
 namespace Batchie.Props.C19
 open Batchie.Orchestrator
@@ -225,6 +229,24 @@ theorem C19_same_as_uninterrupted (cfg : Cfg) (hmode : cfg.mode = .retrospective
       rw [hu', hla', Prog.flat_push]
       simp
   · rw [hu, ht, cleanTree_eq]
+
+/-! ## the executions the driver replays are instances of the theorems -/
+
+/-- the concrete pipeline of the correspondence run (`fakePubs`, what `driver_c19` executes for every `run` line and
+    what `harness/c19.py` mirrors under the real script) satisfies `MarkerLast` in retrospective mode and in prospective
+    mode with the marker-last variant: the hypotheses of `C19_resume` / `C19_resume_partial` hold for exactly the
+    executions that are compared with the implementation -/
+theorem C19_driver_pipeline_markerLast (mode : Mode) (B : Nat) (fk : Fake)
+    (h : mode = .retrospective ∨ fk.mfirst = false) : MarkerLast ⟨mode, B, fakePubs fk⟩ :=
+  fakePubs_markerLast mode B fk h
+
+/-- ... hence every retrospective `run` line of the driver (any batch size ≥ 1, any fake-pipeline parameters, any
+    interruption schedule) ends in a `Resumed` state -/
+theorem C19_resume_driver (B : Nat) (hB : 1 ≤ B) (fk : Fake) (sched : List (Option Nat)) :
+    Resumed ⟨.retrospective, B, fakePubs fk⟩
+      (runSched ⟨.retrospective, B, fakePubs fk⟩ sched Tree.empty []).tree
+      (runSched ⟨.retrospective, B, fakePubs fk⟩ sched Tree.empty []).events :=
+  C19_resume ⟨.retrospective, B, fakePubs fk⟩ rfl hB (fakePubs_markerLast _ B fk (Or.inl rfl)) sched
 
 /-! ## prospective mode: the marker is published first -/
 
